@@ -53,6 +53,13 @@ ProfMath == [Base EXCEPT !.methods = {"pt"}, !.consts = {<<"int", 2, 1>>, <<"dou
                !.binops = {"+"}, !.cmpops = {">"}, !.math = DocumentedMath, !.select = FALSE, !.where = FALSE,
                !.rows = {"bool"}, !.colls = {}, !.start = "perobj"]
 
+\* C06: every collection of the backend in scope x banks (bk3 is in no event), singleton, declared collection
+AllBanks(cs) == {<<c, b>> : c \in cs, b \in {"bk1", "bk2", "bk3"}}
+ProfColl == [Base EXCEPT !.classes = {"A", "B", "T", "M", "I"}, !.methods = {"pt", "runNumber"}, !.aggs = {"Count"},
+               !.where = FALSE, !.rows = {"seq", "tuple"}, !.colls = AllBanks({"A", "B", "X1", "X2"}),
+               !.singles = {<<"S", "bk1">>, <<"S", "bk3">>}]
+ProfCollZ == [ProfColl EXCEPT !.classes = {"A", "Z"}, !.colls = AllBanks({"Z"}) \cup {<<"A", "bk1">>}, !.singles = {}]
+
 \* C04: partial operations (First, index, link dereference) under guards
 ProfFault == [Base EXCEPT !.methods = {"pt", "vals", "link"}, !.consts = {<<"int", 0, 1>>},
                 !.iconsts = {0, 1, 2}, !.cmpops = {">"}, !.boolops = {"And", "Or"}, !.ifexp = TRUE,
